@@ -231,7 +231,16 @@ class Explorer:
                     todo.append((h, op))
             if vlib.SEED:
                 random.Random(vlib.SEED + depth).shuffle(todo)
-            res = self._run([self.states[h]['hist'] + [op] for h, op in todo])
+            # a level is executed in slices so that the deadline is honoured inside a level as well (an overloaded machine used to overshoot
+            # by a whole level); a level cut short leaves every recorded state and transition valid, only the fix-point claim is withdrawn
+            res = []
+            SL = 6000
+            for k in range(0, len(todo), SL):
+                if k and self.deadline and time.time() > self.deadline:
+                    self.cut = 'deadline'
+                    break
+                res += self._run([self.states[h]['hist'] + [op] for h, op in todo[k:k + SL]])
+            todo = todo[:len(res)]
             nxt = []
             for (h, op), r in zip(todo, res):
                 self.trans += 1
@@ -253,6 +262,8 @@ class Explorer:
                 else:
                     self.merges.append((hist, r['H']))
             frontier = nxt
+            if self.cut:
+                break
         else:
             self.fixpoint = True
         return self
